@@ -32,6 +32,9 @@ class WApp:
         if dilation:
             kw["dilation"] = True
         if api == "delegate":
+            # one delegate in four is also a container of what it has collected - and empty (false) when handed over
+            import zlib
+            self.falsy_delegate = zlib.crc32(("%s:%s" % (getattr(world, "seed", 0), name)).encode()) % 4 == 0
             kw["delegate"] = self
         self.w = wmod.create(appid, url, world.reactor, **kw)
         self.binputs = []         # Boss inputs in processing order: (step, old_state, input)
@@ -54,6 +57,11 @@ class WApp:
             w.get_versions().addCallbacks(lambda v: self._ev("versions", v), lambda f: self._err("versions", f))
             if eager_msgs:
                 self._next_msg()
+
+    falsy_delegate = False
+
+    def __len__(self):
+        return 0 if self.falsy_delegate else 1
 
     # ---- recording
     def _ev(self, kind, value):
